@@ -90,19 +90,24 @@ def imagesAt (msgs : List Msg) (i : Nat) : List Img :=
 
 inductive Scan
   | err
+  /-- `m.Template.Execute` (or the tokenizer) failed at iteration `i` -/
+  | fail (i : Nat)
   | done (n : Nat) (sysAt : Option Nat) (evals : Nat)
   deriving DecidableEq, Repr
 
 /-- The backward loop `for i := n; i >= 0; i--`.  The first argument is `i+1` (so `0` = loop
-    finished), `n` is the Go variable `n`, `sysAt` records WHICH iteration's `system` slice is the
+    finished), `bad i` says that rendering/tokenizing `system(i) ++ msgs[i:]` returns an error,
+    `n` is the Go variable `n`, `sysAt` records WHICH iteration's `system` slice is the
     current value of the Go variable `system` (`none` = still the nil slice), `q` counts tokenizer
     calls. -/
-def scan (cfg : Cfg) (cost : Nat → Nat) (msgs : List Msg) : Nat → Nat → Option Nat → Nat → Scan
+def scan (cfg : Cfg) (cost : Nat → Nat) (bad : Nat → Bool) (msgs : List Msg) :
+    Nat → Nat → Option Nat → Nat → Scan
   | 0, n, s, q => .done n s q
   | i+1, n, s, q =>
     if cfg.mllama && decide (1 < (imagesAt msgs i).length) then .err
-    else if i = n then scan cfg cost msgs i n s q
-    else if fits cfg cost msgs i then scan cfg cost msgs i i (some i) (q+1)
+    else if i = n then scan cfg cost bad msgs i n s q
+    else if bad i then .fail i
+    else if fits cfg cost msgs i then scan cfg cost bad msgs i i (some i) (q+1)
     else .done n (some i) (q+1)
 
 /-- `strings.Contains(prompt, "[img]")` -/
@@ -170,6 +175,8 @@ inductive Outcome
   | panicEmpty
   | errTooMany
   | errPreprocess
+  /-- the template (or tokenizer) failed while measuring `system(i) ++ msgs[i:]` -/
+  | execFail (i : Nat)
   /-- `evals` tokenizer calls were made; the final `Execute` receives `system ++ retained`
       where `retained` is `msgs[n:]` with rewritten contents; `images` is returned -/
   | ok (evals n : Nat) (system retained : List Msg) (images : List ImgOut)
@@ -182,12 +189,13 @@ def finalSystem (cfg : Cfg) (msgs : List Msg) (n : Nat) (sysAt : Option Nat) : L
     | none => []
     | some i => systemsBefore msgs i
 
-def chatPrompt (cfg : Cfg) (cost : Nat → Nat) (msgs : List Msg) : Outcome :=
+def chatPrompt (cfg : Cfg) (cost : Nat → Nat) (bad : Nat → Bool) (msgs : List Msg) : Outcome :=
   match msgs with
   | [] => .panicEmpty
   | _ :: _ =>
-    match scan cfg cost msgs msgs.length (msgs.length - 1) none 0 with
+    match scan cfg cost bad msgs msgs.length (msgs.length - 1) none 0 with
     | .err => .errTooMany
+    | .fail i => .execFail i
     | .done n s q =>
       match rewriteAll cfg (msgs.drop n) [] with
       | .error _ => .errPreprocess
@@ -222,7 +230,7 @@ def splitGo : Bytes → Nat → Bytes → List Piece
 
 def splitImg (s : Bytes) : List Piece := splitGo s 0 []
 
-/-! ### the template layer: `collate` and `Execute` for the three harness template styles -/
+/-! ### the template layer: `collate` and `Template.Execute` -/
 
 abbrev RMsg := Role × Bytes
 
@@ -246,66 +254,294 @@ def collate (msgs : List RMsg) : Bytes × List RMsg :=
   (joinSep sep2 ((msgs.filter (fun m => m.1 = Role.system)).map (·.2)), collateMsgs msgs)
 
 def roleName : Role → Bytes
-  | .system => "system".toUTF8.toList
-  | .user => "user".toUTF8.toList
-  | .assistant => "assistant".toUTF8.toList
-  | .tool => "tool".toUTF8.toList
-  | .other => "control".toUTF8.toList
+  | .system => [115, 121, 115, 116, 101, 109]
+  | .user => [117, 115, 101, 114]
+  | .assistant => [97, 115, 115, 105, 115, 116, 97, 110, 116]
+  | .tool => [116, 111, 111, 108]
+  | .other => [99, 111, 110, 116, 114, 111, 108]
 
-def renderMsgBlock (m : RMsg) : Bytes := [91] ++ roleName m.1 ++ [124] ++ m.2 ++ [93]
+/-! #### a subset of `text/template` parse trees, and their execution
 
-/-- style 0, messages-style with a system header:
-    `{{if .System}}S<{{.System}}>{{end}}{{range .Messages}}{{if ne .Role "system"}}[{{.Role}}|{{.Content}}]{{end}}{{end}}`
-    style 3, every message in place: `{{range .Messages}}[{{.Role}}|{{.Content}}]{{end}}` -/
-def renderMessagesStyle (style : Nat) (msgs : List RMsg) : Bytes :=
-  let (sys, ms) := collate msgs
-  if style = 0 then
-    (if sys.isEmpty then [] else [83, 60] ++ sys ++ [62]) ++
-      (ms.filter (fun m => m.1 ≠ Role.system)).flatMap renderMsgBlock
-  else ms.flatMap renderMsgBlock
+  The driver serialises the tree that the REAL `template.Parse` produced (trim markers already
+  applied, `{{ .Response }}` already appended where Parse does that), so nothing about template
+  syntax is modelled — only execution.  Covered: text, `{{ expr }}`, `{{ if }}/{{ else }}`,
+  `{{ range .Messages }}/{{ else }}`; expressions: `.Field`, `$.Field`, string literals,
+  `eq ne not and or`.  Anything else makes the driver mark the template opaque. -/
 
+inductive Fld | system | prompt | response | messages | role | content | other
+  deriving DecidableEq, Repr
+
+inductive Expr
+  | field (f : Fld)      -- `.F`   (a FieldNode)
+  | root (f : Fld)       -- `$.F`  (a VariableNode: never triggers the Response cut)
+  | str (b : Bytes)
+  | eq (a b : Expr) | ne (a b : Expr) | not (a : Expr) | and (a b : Expr) | or (a b : Expr)
+  deriving DecidableEq, Repr
+
+inductive Node
+  | text (b : Bytes)
+  | action (e : Expr)
+  | ite (c : Expr) (t : List Node) (hasElse : Bool) (e : List Node)
+  | range (c : Expr) (t : List Node) (hasElse : Bool) (e : List Node)
+  deriving Repr
+
+inductive Val | str (b : Bytes) | bool (b : Bool) | noValue | msgs (l : List RMsg)
+
+inductive XErr
+  | exec          -- `Template.Execute` returns an error
+  | panicCut      -- `deleteNode` panics (finding F4c)
+  | unsupported   -- outside the modelled subset
+  deriving DecidableEq, Repr
+
+/-- result of a rendering (own type so that equalities are decidable) -/
+inductive XOut | ok (b : Bytes) | err (e : XErr)
+  deriving DecidableEq, Repr
+
+/-- the `map[string]any` handed to `text/template` -/
+structure Root where
+  legacy : Bool
+  system : Bytes
+  prompt : Bytes
+  response : Bytes
+  msgs : List RMsg
+
+/-- map lookup with `missingkey=zero` on a `map[string]any`: a missing key is `<no value>` -/
+def Root.get (r : Root) : Fld → Val
+  | .system => .str r.system
+  | .response => .str r.response
+  | .prompt => if r.legacy then .str r.prompt else .noValue
+  | .messages => if r.legacy then .noValue else .msgs r.msgs
+  | _ => .noValue
+
+def truthy : Val → Bool
+  | .str b => !b.isEmpty
+  | .bool b => b
+  | .noValue => false
+  | .msgs l => !l.isEmpty
+
+def evalField (root : Root) (dot : Option RMsg) (f : Fld) : Except XErr Val :=
+  match dot with
+  | none => .ok (root.get f)
+  | some m =>
+    match f with
+    | .role => .ok (.str (roleName m.1))
+    | .content => .ok (.str m.2)
+    | _ => .error .exec          -- can't evaluate field in type *api.Message
+
+def eval (root : Root) (dot : Option RMsg) : Expr → Except XErr Val
+  | .field f => evalField root dot f
+  | .root f => .ok (root.get f)
+  | .str b => .ok (.str b)
+  | .eq a b =>
+    match eval root dot a, eval root dot b with
+    | .ok (.str x), .ok (.str y) => .ok (.bool (x = y))
+    | .error e, _ => .error e
+    | _, .error e => .error e
+    | _, _ => .error .exec
+  | .ne a b =>
+    match eval root dot a, eval root dot b with
+    | .ok (.str x), .ok (.str y) => .ok (.bool (x ≠ y))
+    | .error e, _ => .error e
+    | _, .error e => .error e
+    | _, _ => .error .exec
+  | .not a =>
+    match eval root dot a with
+    | .ok v => .ok (.bool (!truthy v))
+    | .error e => .error e
+  | .and a b =>
+    match eval root dot a with
+    | .ok v => if truthy v then eval root dot b else .ok v
+    | .error e => .error e
+  | .or a b =>
+    match eval root dot a with
+    | .ok v => if truthy v then .ok v else eval root dot b
+    | .error e => .error e
+
+def bTrue : Bytes := [116, 114, 117, 101]
+def bFalse : Bytes := [102, 97, 108, 115, 101]
+def bNoValue : Bytes := [60, 110, 111, 32, 118, 97, 108, 117, 101, 62]   -- "<no value>"
+
+def printVal : Val → XOut
+  | .str b => .ok b
+  | .bool b => .ok (if b then bTrue else bFalse)
+  | .noValue => .ok bNoValue
+  | .msgs _ => .err .unsupported
+
+def XOut.append : XOut → XOut → XOut
+  | .ok a, .ok b => .ok (a ++ b)
+  | .err e, _ => .err e
+  | .ok _, .err e => .err e
+
+mutual
+def execNode (root : Root) : Node → Option RMsg → XOut
+  | .text b, _ => .ok b
+  | .action e, dot =>
+    match eval root dot e with
+    | .ok v => printVal v
+    | .error x => .err x
+  | .ite c t _ e, dot =>
+    match eval root dot c with
+    | .ok v => if truthy v then execList root t dot else execList root e dot
+    | .error x => .err x
+  | .range c t _ e, dot =>
+    let body := execList root t
+    match eval root dot c with
+    | .ok (.msgs l) =>
+      if l.isEmpty then execList root e dot
+      else l.foldl (fun acc m => acc.append (body (some m))) (.ok [])
+    | .ok .noValue => execList root e dot      -- range over an invalid value: the else branch
+    | .ok _ => .err .exec                       -- range can't iterate over a string
+    | .error x => .err x
+def execList (root : Root) : List Node → Option RMsg → XOut
+  | [], _ => .ok []
+  | n :: ns, dot => (execNode root n dot).append (execList root ns dot)
+end
+
+/-! identifiers (`Template.Vars`) -/
+
+def Expr.mentions (f : Fld) : Expr → Bool
+  | .field g => g = f
+  | .root g => g = f
+  | .str _ => false
+  | .eq a b => a.mentions f || b.mentions f
+  | .ne a b => a.mentions f || b.mentions f
+  | .not a => a.mentions f
+  | .and a b => a.mentions f || b.mentions f
+  | .or a b => a.mentions f || b.mentions f
+
+mutual
+def Node.mentions (f : Fld) : Node → Bool
+  | .text _ => false
+  | .action e => e.mentions f
+  | .ite c t _ e => c.mentions f || nodesMention f t || nodesMention f e
+  | .range c t _ e => c.mentions f || nodesMention f t || nodesMention f e
+def nodesMention (f : Fld) : List Node → Bool
+  | [] => false
+  | n :: ns => n.mentions f || nodesMention f ns
+end
+
+/-- the touch-up at the end of `template.Parse`: append `{{ .Response }}` to templates that
+    mention neither messages nor response (the driver sends the tree AFTER this step; the
+    function is here so that the theorem about it can be stated) -/
+def parseTouchUp (t : List Node) : List Node :=
+  if nodesMention .messages t || nodesMention .response t then t
+  else t ++ [Node.action (.field .response)]
+
+/-! `deleteNode` with the predicate of `Execute`: keep the first `.Response` FieldNode, delete
+    every node visited after it.  `cut` is the closure variable.  Condition pipes of `if`/`range`
+    are not walked.  A non-nil else-list visited after the cut makes the Go code panic
+    (`walk(t.ElseList).(*parse.ListNode)` on a nil interface) — finding F4c; `efix = true` models
+    the repaired code, which drops that else-list instead. -/
+
+inductive CutRes (α : Type)
+  | ok (cut : Bool) (v : α)
+  | panic
+  | unsupported
+
+/-- an action `{{ e }}` visited with `cut = false`: a lone `.Response` sets the cut and stays;
+    other expressions containing a `.Response` FieldNode would be cut in the middle of the
+    pipeline (not modelled) -/
+def cutAction (e : Expr) : CutRes (Option Node) :=
+  match e with
+  | .field .response => .ok true (some (.action e))
+  | _ => if (e.mentions .response && e != .root .response) then .unsupported
+         else .ok false (some (.action e))
+
+mutual
+def cutNode (efix : Bool) : Node → Bool → CutRes (Option Node)
+  | _, true => .ok true none                  -- fn(n) = cut = true: the node is deleted
+  | .text b, false => .ok false (some (.text b))
+  | .action e, false => cutAction e
+  | .ite c t he e, false =>
+    match cutList efix t false with
+    | .ok cut t' =>
+      if !he then .ok cut (some (.ite c t' false []))
+      else if cut then (if efix then .ok cut (some (.ite c t' false [])) else .panic)
+      else match cutList efix e false with
+        | .ok cut' e' => .ok cut' (some (.ite c t' true e'))
+        | .panic => .panic
+        | .unsupported => .unsupported
+    | .panic => .panic
+    | .unsupported => .unsupported
+  | .range c t he e, false =>
+    match cutList efix t false with
+    | .ok cut t' =>
+      if !he then .ok cut (some (.range c t' false []))
+      else if cut then (if efix then .ok cut (some (.range c t' false [])) else .panic)
+      else match cutList efix e false with
+        | .ok cut' e' => .ok cut' (some (.range c t' true e'))
+        | .panic => .panic
+        | .unsupported => .unsupported
+    | .panic => .panic
+    | .unsupported => .unsupported
+def cutList (efix : Bool) : List Node → Bool → CutRes (List Node)
+  | [], cut => .ok cut []
+  | n :: ns, cut =>
+    match cutNode efix n cut with
+    | .ok cut' n' =>
+      match cutList efix ns cut' with
+      | .ok cut'' ns' => .ok cut'' (match n' with | some x => x :: ns' | none => ns')
+      | .panic => .panic
+      | .unsupported => .unsupported
+    | .panic => .panic
+    | .unsupported => .unsupported
+end
+
+/-- the legacy loop's pending turn -/
 structure Legacy where
   sys : Bytes
   prompt : Bytes
   resp : Bytes
-  out : Bytes
+  out : XOut
 
-/-- one `t.Template.Execute(&b, {System, Prompt, Response})` of a legacy template;
-    `style = 1`: `{{if .System}}{{.System}} {{end}}{{if .Prompt}}{{.Prompt}} {{end}}{{if .Response}}{{.Response}} {{end}}`,
-    otherwise the default `{{ .Prompt }}` (+ the appended `{{ .Response }}`).  `final` = the
-    last execution, where everything after the `.Response` field is cut. -/
-def legacyExec (style : Nat) (final : Bool) (s p r : Bytes) : Bytes :=
-  if style = 1 then
-    (if s.isEmpty then [] else s ++ [32]) ++ (if p.isEmpty then [] else p ++ [32]) ++
-      (if r.isEmpty then [] else if final then r else r ++ [32])
-  else p ++ r
+def legacyRoot (s p r : Bytes) : Root := ⟨true, s, p, r, []⟩
 
-def legacyFlush (style : Nat) (st : Legacy) : Legacy :=
-  ⟨[], [], [], st.out ++ legacyExec style false st.sys st.prompt st.resp⟩
+def legacyFlush (t : List Node) (st : Legacy) : Legacy :=
+  ⟨[], [], [], st.out.append (execList (legacyRoot st.sys st.prompt st.resp) t none)⟩
 
-/-- one step of the legacy loop.  `lfix = false` is the pinned code (finding F4b: a pending
-    turn is overwritten when its slot is written again before a flush); `lfix = true` is the
-    proposed repair (flush whenever the slot about to be written is occupied). -/
-def legacyStep (lfix : Bool) (style : Nat) (st : Legacy) (m : RMsg) : Legacy :=
+/-- `collate`'s joining rule, used by the `lmode = 2` repair for a slot that is written twice -/
+def joinSlot (pending content : Bytes) : Bytes :=
+  if pending.isEmpty then content else pending ++ sep2 ++ content
+
+/-- one step of the legacy loop.  `lmode = 0` is the pinned code (finding F4b: a pending turn
+    is overwritten when its slot is written again before a flush); `1` = repair by flushing
+    whenever the slot about to be written is occupied; `2` = repair by joining with a blank
+    line, as `collate` does for adjacent messages of one role. -/
+def legacyStep (lmode : Nat) (t : List Node) (st : Legacy) (m : RMsg) : Legacy :=
   match m.1 with
   | .system =>
-    let st := if (lfix && !st.sys.isEmpty) || !st.prompt.isEmpty || !st.resp.isEmpty
-      then legacyFlush style st else st
-    { st with sys := m.2 }
+    let st := if (lmode = 1 && !st.sys.isEmpty) || !st.prompt.isEmpty || !st.resp.isEmpty
+      then legacyFlush t st else st
+    { st with sys := if lmode = 2 then joinSlot st.sys m.2 else m.2 }
   | .user =>
-    let st := if (lfix && !st.prompt.isEmpty) || !st.resp.isEmpty then legacyFlush style st else st
-    { st with prompt := m.2 }
+    let st := if (lmode = 1 && !st.prompt.isEmpty) || !st.resp.isEmpty then legacyFlush t st else st
+    { st with prompt := if lmode = 2 then joinSlot st.prompt m.2 else m.2 }
   | .assistant =>
-    let st := if lfix && !st.resp.isEmpty then legacyFlush style st else st
-    { st with resp := m.2 }
+    let st := if lmode = 1 && !st.resp.isEmpty then legacyFlush t st else st
+    { st with resp := if lmode = 2 then joinSlot st.resp m.2 else m.2 }
   | _ => st
 
-def renderLegacy (lfix : Bool) (style : Nat) (msgs : List RMsg) : Bytes :=
-  let st := (collateMsgs msgs).foldl (legacyStep lfix style) ⟨[], [], [], []⟩
-  st.out ++ legacyExec style true st.sys st.prompt st.resp
+/-- variant of the template layer of the tree under test -/
+structure TVar where
+  /-- legacy loop: 0 pinned (F4b), 1 flush repair, 2 join repair -/
+  lmode : Nat
+  /-- `deleteNode` else-list repair (F4c) -/
+  efix : Bool
 
-def render (lfix : Bool) (style : Nat) (msgs : List RMsg) : Bytes :=
-  if style = 0 ∨ style = 3 then renderMessagesStyle style msgs else renderLegacy lfix style msgs
+/-- `Template.Execute(w, Values{Messages: msgs})` for a parsed tree `t` -/
+def execute (tv : TVar) (t : List Node) (msgs : List RMsg) : XOut :=
+  let (sys, coll) := collate msgs
+  if nodesMention .messages t then
+    execList ⟨false, sys, [], [], coll⟩ t none
+  else
+    let st := coll.foldl (legacyStep tv.lmode t) ⟨[], [], [], .ok []⟩
+    match st.out with
+    | .err e => .err e                       -- an `execute()` inside the loop failed: early return
+    | .ok out =>
+      match cutList tv.efix t false with
+      | .panic => .err .panicCut
+      | .unsupported => .err .unsupported
+      | .ok _ t' => (XOut.ok out).append (execList (legacyRoot st.sys st.prompt st.resp) t' none)
 
 def toRMsg (m : Msg) : RMsg := (m.role, renderPieces m.content)
 
@@ -322,5 +558,70 @@ def tokenCount (mode : Nat) (s : Bytes) : Nat :=
 /-- `cost` obtained from a render function and a tokenizer, as chatPrompt evaluates it -/
 def costOfRender (rend : List Msg → Nat) (msgs : List Msg) (i : Nat) : Nat :=
   rend (systemsBefore msgs i ++ msgs.drop i)
+
+/-! ### chatPrompt with the template layer inside the model -/
+
+/-- what iteration `i` renders -/
+def renderAt (tv : TVar) (t : List Node) (msgs : List Msg) (i : Nat) : XOut :=
+  execute tv t ((systemsBefore msgs i ++ msgs.drop i).map toRMsg)
+
+inductive OutcomeT
+  | panicEmpty
+  | errTooMany
+  | errPreprocess
+  /-- `Template.Execute` failed (error or panic) in the loop or in the final rendering -/
+  | tmplErr (e : XErr)
+  | ok (evals n : Nat) (system retained : List Msg) (images : List ImgOut) (prompt : Bytes)
+  deriving DecidableEq, Repr
+
+/-- `chatPrompt` for a parsed template `t` and tokenizer `mode`: the generic `chatPrompt` with
+    `cost`/`bad` obtained by executing the template, followed by the final `Execute`. -/
+def chatPromptT (cfg : Cfg) (tv : TVar) (t : List Node) (mode : Nat) (msgs : List Msg) : OutcomeT :=
+  let cost := fun i => match renderAt tv t msgs i with
+    | .ok b => tokenCount mode b
+    | .err _ => 0
+  let bad := fun i => match renderAt tv t msgs i with
+    | .ok _ => false
+    | .err _ => true
+  match chatPrompt cfg cost bad msgs with
+  | .panicEmpty => .panicEmpty
+  | .errTooMany => .errTooMany
+  | .errPreprocess => .errPreprocess
+  | .execFail i =>
+    match renderAt tv t msgs i with
+    | .err e => .tmplErr e
+    | .ok _ => .tmplErr .exec
+  | .ok q n sys ret imgs =>
+    match execute tv t ((sys ++ ret).map toRMsg) with
+    | .err e => .tmplErr e
+    | .ok p => .ok q n sys ret imgs p
+
+/-! ### the caller: `ChatHandler` (server/routes.go) and the runner's use of the result -/
+
+/-- `msgs := append(m.Messages, req.Messages...)`, then the model's SYSTEM is prepended unless
+    the REQUEST starts with a system message.  (`req = []` never gets here: the handler answers
+    "load" before.) -/
+def handlerMsgs (modelMsgs : List Msg) (modelSystem : Bytes) (req : List Msg) : List Msg :=
+  match req with
+  | [] => modelMsgs
+  | r0 :: _ =>
+    if r0.role ≠ Role.system ∧ !modelSystem.isEmpty then
+      ⟨Role.system, splitImg modelSystem, []⟩ :: (modelMsgs ++ req)
+    else modelMsgs ++ req
+
+/-- the tags of a rendered content, in order (runner: `regexp \[img-(\d+)\]`) -/
+def tagsOf (c : List Piece) : List Nat :=
+  c.filterMap (fun p => match p with | .tag k => some k | _ => none)
+
+/-- runner `inputs`: the image used for tag `n` is the first one whose `ID == n`;
+    `none` = "invalid image index" -/
+def resolveTag (imgs : List ImgOut) (n : Nat) : Option ImgOut := imgs.find? (fun o => o.id = n)
+
+def resolveTags (imgs : List ImgOut) : List Nat → Option (List ImgOut)
+  | [] => some []
+  | k :: ks =>
+    match resolveTag imgs k, resolveTags imgs ks with
+    | some o, some os => some (o :: os)
+    | _, _ => none
 
 end OllamaVerif.Prompt
